@@ -324,7 +324,9 @@ Fixpoint seq_run (s : st) (used : list pc) (ops : list word) : option (list word
   end.
 
 (* cfg = [0; timeout in units]  sequential script
-   cfg = 1 :: _                 goroutine stress: obs = [[event codes, chronological]] *)
+   cfg = 1 :: _                 goroutine stress: obs = [[event codes, chronological]]
+   cfg = 3 :: _                 gated scenario (cc.ExitIdleMode blocks on a gate while other
+                                RPCs start): obs = [[event codes, chronological]] *)
 Definition run (cfg : word) (ops : list word) : option (list word) :=
   match cfg with
   | [0; tmo] => if (tmo <? 0) || (tmo >? 1000) then None else
@@ -338,7 +340,7 @@ Definition run (cfg : word) (ops : list word) : option (list word) :=
 (* all event codes of an observation list, chronological (sequential: drop the op code) *)
 Definition obs_codes (cfg : word) (obs : list word) : list Z :=
   match cfg with
-  | 1 :: _ => concat obs
+  | 1 :: _ | 3 :: _ => concat obs
   | _ => concat (map (fun w => tl w) obs)
   end.
 
@@ -375,6 +377,6 @@ Definition holds_b (cfg : word) (ops obs : list word) : bool :=
    accepted by the automaton that every model log is proved to satisfy *)
 Definition check_case (c : case) : verdict :=
   match c_cfg c with
-  | 1 :: _ => decide (Some (c_obs c)) (c_obs c) (clauses (c_cfg c) (c_ops c) (c_obs c))
+  | 1 :: _ | 3 :: _ => decide (Some (c_obs c)) (c_obs c) (clauses (c_cfg c) (c_ops c) (c_obs c))
   | _ => decide (run (c_cfg c) (c_ops c)) (c_obs c) (clauses (c_cfg c) (c_ops c) (c_obs c))
   end.
